@@ -112,7 +112,7 @@ impl Property for Helpers {
     fn budget(&self, tier: Tier) -> Budget {
         Budget {
             cases: tier.pick(300_000, 20_000_000),
-            tape_len: 120,
+            tape_len: 400,
         }
     }
     fn decode(&self, t: &mut Tape<'_>) -> HelperCase {
@@ -232,7 +232,7 @@ impl Property for Cursor {
     fn budget(&self, tier: Tier) -> Budget {
         Budget {
             cases: tier.pick(300_000, 30_000_000),
-            tape_len: 200,
+            tape_len: 500,
         }
     }
     fn decode(&self, t: &mut Tape<'_>) -> CursorCase {
